@@ -141,7 +141,7 @@ def renderPair (kv : Bytes × Bytes) : Bytes := kv.1 ++ [0x3D] ++ kv.2
 /-- `canonicalize_query_to_string` (canonical.rs:896-910): pairs sorted by (name, value),
 rendered `name=value`, joined by `&`. -/
 def canonQuery (m : QueryMap) : Bytes :=
-  joinWith [0x26] ((List.mergeSort (queryPairs m) pairLe).map renderPair)
+  joinWith [0x26] ((sortBy pairLe (queryPairs m)).map renderPair)
 
 /-- `unescape_uri_encoding` (canonical.rs:1319-1338): `%hh` becomes the *character* of that code
 (so its UTF-8 rendering), any other byte is pushed as a character too. Panics on bad escapes. -/
